@@ -98,3 +98,15 @@ chk("C06", "model_checking",
     "100 MiB payloads are only announced; memory safety and super-linear time are not decided by TLC (coarse run-time monitors only).",
     "TLA+ life-cycle spec + TLC (safety and liveness); crash-point enumeration at every byte offset; trace validation of recorded life cycles; fuzz monitors",
     "DESIGN.md 3 (C06)", "tlc+harness/cmd/life")
+
+chk("C12", "model_checking",
+    "Client.tla is the meaning of the transcript: from the commands submitted and the lines a protocol-conformant server has sent (pipelines of RFC 9051 5.5, "
+    "out-of-order tagged completions OK/NO/BAD, untagged data, unsolicited EXISTS/EXPUNGE/FLAGS/PERMANENTFLAGS/FETCH/CLOSED/BYE anywhere) it computes the "
+    "connection state, the selected-mailbox summary, which command is complete with which status and which data each was given; TLC checks exactly-once "
+    "completion, isolation of NO/BAD and the state diagram. One behaviour per transition of the bounded graph is replayed against a real imapclient.Client "
+    "facing a scripted server; after every line (NOOP barrier) State(), Mailbox(), the unilateral handler, completion statuses and delivered data are compared. "
+    "Long random sessions are validated by ClientTrace.",
+    "Trusts TLC and the NOOP barrier (the client's reader is sequential); commands: NOOP LOGIN SELECT UNSELECT STATUS LIST SEARCH FETCH EXPUNGE LOGOUT; the mailbox summary "
+    "is compared only while no SELECT is in progress; refusal of a literal is covered by C18.",
+    "TLA+ spec + TLC exhaustive check; transition-coverage replay against the real client; trace validation of random sessions",
+    "DESIGN.md 3 (C12)", "tlc+harness/cmd/client")
